@@ -160,7 +160,7 @@ def run_bounded(chk):
     fails = []
     n_eval = 0
     named = corpus.named_convex()
-    sets = [(name, pts) for name, pts in named.items() if len(pts) <= 12]
+    sets = [(name, pts) for name, pts in named.items() if len(pts) <= 16]
     sets += [(f"lattice{i}", p) for i, p in enumerate(corpus.lattice_convex_sets(limit=10 if chk.tier == "quick" else 60))]
     for name, pts in sets:
         exact = oracle.hull_facets(pts)
@@ -174,7 +174,10 @@ def run_bounded(chk):
                 rnd.shuffle(q)
                 orders.append(q)
         for perm in orders:
-            for pname, R, t in corpus.placements()[:2 if chk.tier == "quick" else 4]:
+            places = corpus.placements()[:2 if chk.tier == "quick" else 4]
+            if name.startswith(("flat_", "needle_")):
+                places = corpus.far_placements()[:2 if chk.tier == "quick" else 3]
+            for pname, R, t in places:
                 n_eval += 1
                 P = corpus.place([pts[i] for i in perm], R, t)
                 inv = {old: new for new, old in enumerate(perm)}
